@@ -135,6 +135,32 @@ func handlerAddressed(o ropt, p []int) bool {
 	return false
 }
 
+// firedMult: how often the handlers of option o are applied at the node at path p (closed form,
+// Coq: Model/OptionsSpec.v fired_mult, theorem callbacks_multiplicity): once if o is
+// undesignated; once if some path of o designates the first node of p at the top level; once per
+// path of length >= 2 that is p or a prefix of p.
+func firedMult(o ropt, p []int) int {
+	if len(o.paths) == 0 {
+		return 1
+	}
+	if len(p) == 0 {
+		return 0
+	}
+	m := 0
+	for _, q := range o.paths {
+		if len(q) == 1 && q[0] == p[0] {
+			m = 1
+			break
+		}
+	}
+	for _, q := range o.paths {
+		if len(q) >= 2 && len(q) <= len(p) && eqPath(q, p[:len(q)]) {
+			m++
+		}
+	}
+	return m
+}
+
 func setOf(a []int) []int {
 	m := map[int]bool{}
 	for _, x := range a {
@@ -321,7 +347,7 @@ func judge(c *Case, obs []CallObs, res *lib.Result) {
 				globals = append(globals, op.hs...)
 			}
 		}
-		expFired = append(expFired, PL{Path: []int{}, Vals: setOf(globals)})
+		expFired = append(expFired, PL{Path: []int{}, Vals: sortedCopy(globals)})
 		walkTree(c.Forest, 0, nil, 0, sel, func(p []int, nd Node) {
 			if nd.Kind != "sub" {
 				vals := []int{}
@@ -338,11 +364,15 @@ func judge(c *Case, obs []CallObs, res *lib.Result) {
 			if nd.Kind != "pass" {
 				hs := []int{}
 				for _, op := range opts {
-					if handlerAddressed(op, p) {
+					m := firedMult(op, p)
+					if (m > 0) != handlerAddressed(op, p) {
+						fail("harness-anomaly", fmt.Sprintf("oracle: the two closed forms of 'handler addressed' disagree at %s", pathName(p)))
+					}
+					for ; m > 0; m-- {
 						hs = append(hs, op.hs...)
 					}
 				}
-				expFired = append(expFired, PL{Path: p, Vals: setOf(hs)})
+				expFired = append(expFired, PL{Path: p, Vals: sortedCopy(hs)})
 			}
 		})
 		if mixedDelivered {
@@ -418,7 +448,7 @@ func judge(c *Case, obs []CallObs, res *lib.Result) {
 				if d := diffPLs(expDeliv, o.Deliv, false); d != "" {
 					fail("wrong-delivery", fmt.Sprintf("call %d: options delivered differ from the addressed ones: %s", i, d))
 				}
-				if d := diffPLs(expFired, o.Fired, true); d != "" {
+				if d := diffPLs(expFired, o.Fired, false); d != "" {
 					fail("callback-misplaced", fmt.Sprintf("call %d: handlers fired differ from the designated ones: %s", i, d))
 				}
 				if designated && depth >= 2 && !c.Resume {
